@@ -519,6 +519,20 @@ def memberVal (ms : List (Bytes × Option Blk × Node)) (i : Nat) : Node :=
   | some (_, _, v) => v
   | none => .null
 
+/-- json_object_object_add_ex once the key pointer `kb` is settled (`none` = the caller's constant
+key): lh_table_insert_w_hash, and on failure the key copy is given back -/
+def objectAddInsert (b : Blk) (lh : LhA) (ms : List (Bytes × Option Blk × Node)) (key : Bytes)
+    (kb : Option Blk) (val : Node) : A (Node × Int) := do
+  let (lh1, rc) ← lhInsert lh
+  if rc ≠ 0 then do
+    if allocObjAddFreesKeyOnFail then
+      match kb with
+      | some k => free k "json_object_object_add_ex: free(k)"
+      | none => pure ()
+    else pure ()
+    pure (.obj b lh1 ms, -1)
+  else pure (.obj b lh1 (ms ++ [(key, kb, val)]), 0)
+
 /-- int json_object_object_add_ex(jso, key, val, opts): (node', rc).
 `keyIsNew` = JSON_C_OBJECT_ADD_KEY_IS_NEW, `constKey` = JSON_C_OBJECT_ADD_CONSTANT_KEY. -/
 def objectAddEx (jso : Node) (key : Bytes) (val : Node) (keyIsNew constKey : Bool) : A (Node × Int) :=
@@ -532,23 +546,11 @@ def objectAddEx (jso : Node) (key : Bytes) (val : Node) (keyIsNew constKey : Boo
     | none =>
       if allocObjAddChecksStrdup = false then
         fault "json_object_object_add_ex: strdup(key) is not checked (shape not covered)"
+      else if constKey then objectAddInsert b lh ms key none val
       else do
-        let kb ← if constKey then pure (some none) else do
-          match ← strdup key.length with
-          | none => pure none
-          | some k => pure (some (some k))
-        match kb with
+        match ← strdup key.length with
         | none => pure (jso, -1)
-        | some kb => do
-          let (lh1, rc) ← lhInsert lh
-          if rc ≠ 0 then do
-            if allocObjAddFreesKeyOnFail then
-              match kb with
-              | some k => free k "json_object_object_add_ex: free(k)"
-              | none => pure ()
-            else pure ()
-            pure (.obj b lh1 ms, -1)
-          else pure (.obj b lh1 (ms ++ [(key, kb, val)]), 0)
+        | some k => objectAddInsert b lh ms key (some k) val
   | _ => fault "json_object_object_add_ex: assert(json_object_get_type(jso) == json_type_object)"
 
 /-- static int _json_object_set_string_len(json_object *jso, const char *s, size_t len): (node', ret) -/
